@@ -344,6 +344,7 @@ func run(c *rig.Ctx) {
 	debugTwin(c)
 	programs(c)
 	longLife(c)
+	pushOAM(c)
 
 	roms := romrun.Select("mem_timing", "add_sp_e_timing", "call_timing", "call_cc_timing", "jp_timing", "jp_cc_timing", "ret_timing", "ret_cc_timing", "reti_timing", "pop_timing", "push_timing", "rst_timing", "ld_hl_sp_e_timing", "oam_dma_timing")
 	romrun.FollowROMs(c, "roms", roms, romrun.FollowOpts{Verdict: true})
